@@ -45,6 +45,37 @@ Definition tops (l : list file) : list file := group None l.
 Definition set_raw (c : chart) (r : list file) : chart :=
   Chart (c_meta c) (c_lock c) r (c_values c) (c_schema c) (c_templates c) (c_files c) (c_deps c).
 
+(* sorted + without repetition: determined by the set of names *)
+Lemma dedup_in x l : In x (dedup l) <-> In x l.
+Proof.
+  induction l as [|y l IH]; simpl; [tauto|]. destruct (existsb (String.eqb y) l) eqn:E.
+  - rewrite IH. split; auto. intros [->|H]; auto. apply existsb_exists in E as (z & Hz & Ez).
+    apply String.eqb_eq in Ez. now subst.
+  - simpl. now rewrite IH.
+Qed.
+
+Lemma dedup_nodup l : NoDup (dedup l).
+Proof.
+  induction l as [|y l IH]; simpl; [constructor|]. destruct (existsb (String.eqb y) l) eqn:E; auto.
+  constructor; auto. rewrite dedup_in. intros H.
+  assert (existsb (String.eqb y) l = true) as Ht by (apply existsb_exists; exists y; split; [auto|apply String.eqb_refl]).
+  congruence.
+Qed.
+
+Lemma sorted_names_unique l1 l2 :
+  (forall n, In n l1 <-> In n l2) -> sort_strs (dedup l1) = sort_strs (dedup l2).
+Proof.
+  intros H. rewrite !sort_strs_ssort.
+  apply sorted_antisym_unique with (leb := str_leb).
+  - apply str_leb_total.
+  - intros a b _ _. apply str_leb_antisym.
+  - apply ssort_sorted; [apply str_leb_total|apply str_leb_trans].
+  - apply ssort_sorted; [apply str_leb_total|apply str_leb_trans].
+  - rewrite !ssort_perm. apply NoDup_Permutation; try apply dedup_nodup.
+    intros x. rewrite !dedup_in. apply H.
+Qed.
+
+
 Section Order.
   Variable md_merge : meta -> string -> option meta.
   Variable lock_dec : string -> option (option lockv).
@@ -175,36 +206,6 @@ Section Order.
       + apply String.eqb_eq in E. subst. split; [discriminate|auto].
       + apply String.eqb_neq in E. split; [intros [[H|[]]|H]; [contradiction|exact H]|auto].
     - split; [intros [[]|H]; exact H|auto].
-  Qed.
-
-  (* sorted + without repetition: determined by the set of names *)
-  Lemma dedup_in x l : In x (dedup l) <-> In x l.
-  Proof.
-    induction l as [|y l IH]; simpl; [tauto|]. destruct (existsb (String.eqb y) l) eqn:E.
-    - rewrite IH. split; auto. intros [->|H]; auto. apply existsb_exists in E as (z & Hz & Ez).
-      apply String.eqb_eq in Ez. now subst.
-    - simpl. now rewrite IH.
-  Qed.
-
-  Lemma dedup_nodup l : NoDup (dedup l).
-  Proof.
-    induction l as [|y l IH]; simpl; [constructor|]. destruct (existsb (String.eqb y) l) eqn:E; auto.
-    constructor; auto. rewrite dedup_in. intros H.
-    assert (existsb (String.eqb y) l = true) as Ht by (apply existsb_exists; exists y; split; [auto|apply String.eqb_refl]).
-    congruence.
-  Qed.
-
-  Lemma sorted_names_unique l1 l2 :
-    (forall n, In n l1 <-> In n l2) -> sort_strs (dedup l1) = sort_strs (dedup l2).
-  Proof.
-    intros H. rewrite !sort_strs_ssort.
-    apply sorted_antisym_unique with (leb := str_leb).
-    - apply str_leb_total.
-    - intros a b _ _. apply str_leb_antisym.
-    - apply ssort_sorted; [apply str_leb_total|apply str_leb_trans].
-    - apply ssort_sorted; [apply str_leb_total|apply str_leb_trans].
-    - rewrite !ssort_perm. apply NoDup_Permutation; try apply dedup_nodup.
-      intros x. rewrite !dedup_in. apply H.
   Qed.
 
   (* the groups of the two lists agree *)
